@@ -229,7 +229,10 @@ func (t *Array) Process(ctx *ProcessContext, di *DataIndexer, accessor Accessor)
 	// Skip redundant bits post decoding.
 	if t.extensible && !ctx.isEncode {
 		// Skip redundant bits.
-		ito := i + int(ahead)*t.capacity
+		// The 16 bits ahead flag is followed by `ahead` elements, each
+		// occupies the same number of bits as the ones just decoded.
+		elementNbits := (ctx.i - i - 16) / t.capacity
+		ito := i + 16 + int(ahead)*elementNbits
 		if ito >= ctx.i {
 			ctx.i = ito
 		}
